@@ -143,16 +143,26 @@ class Report:
         # replay violations
         os.makedirs(os.path.join(VERIF, "replays", pid), exist_ok=True)
         vio_records = []
-        seen_replay = set()
+        seen_replay = {}
+        todo = []
         for ob in violations:
             rp = ob.get("replay")
-            native = None
             key = json.dumps(rp, sort_keys=True) if rp else None
-            if rp and key not in seen_replay and len(seen_replay) < 12:
-                seen_replay.add(key)
-                native = run_probe(rp["probe"], rp["hint"])
-            elif rp and key in seen_replay:
-                native = {"reproduced": None, "note": "same replay as an earlier obligation"}
+            if rp and key not in seen_replay and len(seen_replay) < 24:
+                seen_replay[key] = None
+                todo.append((key, rp))
+        if todo:
+            from concurrent.futures import ThreadPoolExecutor
+
+            with ThreadPoolExecutor(max_workers=8) as tp:
+                for (key, rp), nat in zip(todo, tp.map(lambda kr: run_probe(kr[1]["probe"], kr[1]["hint"]), todo)):
+                    seen_replay[key] = nat
+        for ob in violations:
+            rp = ob.get("replay")
+            key = json.dumps(rp, sort_keys=True) if rp else None
+            native = seen_replay.get(key) if rp else None
+            if rp and native is None:
+                native = {"reproduced": False, "note": "replay budget (24 native replays per run) exhausted; run ./check %s --replay <this file>" % pid}
             path = os.path.join(VERIF, "replays", pid, safe(ob["name"]) + ".json")
             rec = {
                 "property": pid,
@@ -168,9 +178,8 @@ class Report:
             with open(path, "w") as f:
                 json.dump(rec, f, indent=1, default=repr)
             repro = bool(native and native.get("reproduced"))
-            if native and native.get("reproduced") is None:
-                repro = True
             vio_records.append((ob, path, repro, native))
+        vio_records.sort(key=lambda r: not r[2])
         any_repro = any(r for _, _, r, _ in vio_records)
         for ob, path, repro, native in vio_records[:40]:
             tail = "" if repro else " no-failing-input-found"
